@@ -286,9 +286,9 @@ func checkC04(p *Prog, r *Report) {
 			r.Check("R8", fmt.Sprintf("%s|call:%s#%d", base, originName(callee), nMutSites), !open && len(waCalls) > 0, p.InstrPos(call), fmt.Sprintf("mutator applied to %s; reachable with remoteWrite=true and writeAllowed=false: %v", target, open))
 		})
 	}
-	r.Floor("R3", "engine stages", nStages, 4)
-	r.Floor("R3", "failure sites caused by the write check", nFlagSites, 3)
-	r.Floor("R8", "mutator call sites in the engine", nMutSites, 4)
+	r.Floor("R3", "engine stages", nStages, 3)
+	r.Floor("R3", "failure sites caused by the write check", nFlagSites, 1)
+	r.Floor("R8", "mutator call sites in the engine", nMutSites, 2)
 
 	// R4: reflective mutators applied to existing items consult the tag
 	seenMut := map[*ssa.Function]bool{}
@@ -310,7 +310,7 @@ func checkC04(p *Prog, r *Report) {
 		seenMut[og] = true
 		r.Check("R4", "mutator:"+FnName(og), usesWriteCheckTag(fn), p.Pos(fn.Pos()), "the mutator copies or clears fields by reflection; it reads the writecheck tag: "+fmt.Sprint(usesWriteCheckTag(fn)))
 	}
-	r.Floor("R4", "reflective mutators applied by the engine", len(seenMut), 3)
+	r.Floor("R4", "reflective mutators applied by the engine", len(seenMut), 2)
 	c04FlagRetention(p, o, r)
 
 	// R5
